@@ -26,6 +26,17 @@ CHECKS: dict[str, dict] = {
         "thousands of real renders against the same clauses after every token.",
         design_ref="DESIGN.md 3 C01",
     ),
+    "C02": dict(
+        technique="TLA+ transcription of the block run-length loop (BlockLine.tla: RunUniform, Painted) explored by "
+        "TLC with every enumerated line replayed into the real BlockImage; real renders validated cell for "
+        "cell by TLC on Terminal.tla (Trace_Block.tla)",
+        text="TLC saturates the state space of the run-length machine (every line length over the pixel alphabet) "
+        "and checks that every flushed run paints exactly the displayed value of each of its cells; the token "
+        "sequence of every enumerated line must equal the real renderer's; thousands of real renders over "
+        "all modes / alpha settings / backgrounds / kitty workaround / split cells are interpreted by the "
+        "terminal model and compared cell for cell with the source pixels.",
+        design_ref="DESIGN.md 3 C02, notes/C02.md",
+    ),
     "C06": dict(
         technique="Terminal.tla in absolute line coordinates + TLC trace validation of the bytes real draw() "
         "calls deliver (both APIs); DrawValidate.tla table replayed into the real draw()",
@@ -75,6 +86,16 @@ CHECKS: dict[str, dict] = {
         "must equal the specified program for every operation and failure point, and random operation "
         "logs are validated against the lifecycle automaton.",
         design_ref="DESIGN.md 3 C10",
+    ),
+    "C20": dict(
+        technique="TLA+ inheritance model of style settings (StyleSettings.tla) explored by TLC; every edge replayed "
+        "on dynamically created subclasses of the real style classes; recorded set/unset histories "
+        "validated by TLC",
+        text="TLC enumerates set / unset / invalid / instance-level operations on a tree of style classes and "
+        "instances for every inheritable setting and checks that only the node and its inheritors change; "
+        "every edge is replayed on real subclasses reading the effective value at every class and instance "
+        "(render method observed through the framing of actual renders).",
+        design_ref="DESIGN.md 3 C20, notes/C20.md",
     ),
 }
 
